@@ -384,6 +384,38 @@ impl ReceiveChannelReliable {
     }
 }
 
+#[cfg(renet_verif)]
+impl SendChannelReliable {
+    /// Ids of the messages that are still unacknowledged, with the per slice ack flags for sliced messages.
+    pub fn verif_unacked(&self) -> Vec<(u64, Vec<bool>)> {
+        self.unacked_messages
+            .iter()
+            .map(|(id, m)| match m {
+                UnackedMessage::Small { .. } => (*id, vec![]),
+                UnackedMessage::Sliced { acked, .. } => (*id, acked.clone()),
+            })
+            .collect()
+    }
+
+    pub fn verif_memory(&self) -> usize {
+        self.memory_usage_bytes
+    }
+}
+
+#[cfg(renet_verif)]
+impl ReceiveChannelReliable {
+    pub fn verif_memory(&self) -> usize {
+        self.memory_usage_bytes
+    }
+
+    /// (oldest pending message id, buffered message ids, message ids under reassembly)
+    pub fn verif_state(&self) -> (u64, Vec<u64>, Vec<u64>) {
+        let mut slices: Vec<u64> = self.slices.keys().copied().collect();
+        slices.sort_unstable();
+        (self.oldest_pending_message_id, self.messages.keys().copied().collect(), slices)
+    }
+}
+
 #[cfg(test)]
 mod tests {
     use octets::OctetsMut;
